@@ -71,16 +71,25 @@ def gen_calls(r, S):
     return calls
 
 
-def real_evt_seq(S, calls, labels):
+def real_evt_seq(S, calls, labels, via=None):
+    """labels: None (scenarios 0..S-1), a list of strings or a permutation of 0..S-1; via: None (labels passed as they are),
+    'loc' / 'iloc' (a scenario object taken from the ambiguity set by label / by position)"""
     from rsome import dro
     m = dro.Model(labels if labels else S)
     x = m.dvar(2)
+    fset = m.ambiguity() if via else None
     res = []
     for c in calls:
-        arg = [labels[i] if (labels and i < S) else (('zz%d' % i) if labels else i) for i in c]
+        known = all(i < S for i in c)
+        if labels:
+            arg = [labels[i] if i < S else ('zz%d' % i if isinstance(labels[0], str) else S + i) for i in c]
+        else:
+            arg = list(c)
         try:
-            if len(arg) == 1 and not labels:
-                x.adapt(arg[0] if True else arg)
+            if via and known and c:
+                x.adapt(fset.loc[arg] if via == 'loc' else fset.iloc[list(c)])
+            elif len(arg) == 1 and not labels:
+                x.adapt(arg[0])
             else:
                 x.adapt(arg)
             res.append({"ok": [list(map(int, e)) for e in x.event_adapt]})
@@ -96,10 +105,12 @@ def run(ctx):
     for _ in range(ctx.n(250, 6000)):
         S = int(r.integers(1, 7))
         calls = gen_calls(r, S)
-        labels = None if r.random() < 0.5 else ['s%d' % i for i in range(S)]
-        case = {"S": S, "calls": calls, "labels": bool(labels)}
+        u = r.random()
+        labels = None if u < 0.4 else (['s%d' % i for i in range(S)] if u < 0.7 else [int(v) for v in r.permutation(S)])
+        via = None if r.random() < 0.5 else ('loc' if r.random() < 0.5 else 'iloc')
+        case = {"S": S, "calls": calls, "labels": labels, "via": via}
         try:
-            code = {"results": real_evt_seq(S, calls, labels)}
+            code = {"results": real_evt_seq(S, calls, labels, via)}
         except Exception as e:
             code = {"results": [{"err": "harness:" + type(e).__name__}]}
         reqs.append({"op": "evt_seq", "S": S, "calls": calls}); codes.append(code); cases.append(case); comps.append('DecVar.evtadapt')
@@ -164,6 +175,9 @@ def classify_disagreement(ctx, comp, case, code, out):
                     flat = sorted(s for e in a['ok'] for s in e)
                     if flat != list(range(case['S'])):
                         ctx.hit('evtadapt-not-a-partition', {"code": a}, case)
+                    elif 'ok' in b and sorted(map(sorted, a['ok'])) != sorted(map(sorted, b['ok'])):
+                        # a partition, but not the one the calls declared: other scenarios were split off
+                        ctx.hit('evtadapt-partition-not-the-declared-one', {"code": a, "declared": b}, case)
                 break
     elif comp == 'comb_set':
         p, q, ev = case['p'], case['q'], code['events']
@@ -192,11 +206,13 @@ def real_rule_var(r):
     nd = int(r.integers(1, 4))
     order = []
     problems = []
+    vt_letters = []
     for k in range(nd):
         size = int(r.integers(1, 4))
         vt = 'C' if r.random() < 0.7 else ''.join(str(c) for c in r.choice(['C', 'C', 'B', 'I'], size))
         x = m.dvar(size, vtype=vt) if len(vt) == 1 or size > 0 else m.dvar(size)
         letters = vt * size if len(vt) == 1 else vt
+        vt_letters.append(letters)
         part = rand_partition(r, S)
         # declare all but one event (the first stays the remainder) in random order
         for e in part[1:]:
@@ -225,17 +241,36 @@ def real_rule_var(r):
                         raise
         decs.append({"size": size, "events": [list(map(int, e)) for e in x.event_adapt], "mask": mask.tolist()})
         order.append(x)
-    late = int(r.integers(1, 3)) if r.random() < 0.25 else 0
+    late = int(r.integers(1, 3)) if r.random() < 0.35 else 0
+    late_masks = [np.zeros((d['size'], late), int) for d in decs]
     if late:
-        m.rvar(late)                                  # a random variable declared after the adapt() calls
+        u = m.rvar(late)                              # a random variable declared after the adapt() calls
+        if r.random() < 0.5:
+            # ... which one of the decisions (with or without earlier dependencies) is then declared to depend on
+            k = int(r.integers(0, len(order)))
+            xk, sz = order[k], decs[k]['size']
+            lk = vt_letters[k]
+            di = sorted(set(int(v) for v in r.choice(sz, int(r.integers(1, sz + 1)), replace=False)))
+            ri = sorted(set(int(v) for v in r.choice(late, int(r.integers(1, late + 1)), replace=False)))
+            has_int = any(lk[i] in 'BI' for i in di)
+            try:
+                (xk if (len(di) == sz and r.random() < 0.5) else xk[di]).adapt(u[ri])
+                if has_int:
+                    problems.append({"what": "integer entry made affinely adaptive", "vtype": lk, "entries": di})
+                late_masks[k][np.ix_(di, ri)] = 1
+            except Exception as e:
+                if not (has_int and isinstance(e, ValueError)):
+                    # a legal, not yet declared dependency cannot be declared at all
+                    problems.append({"what": "legal adapt() on a later random variable raises", "error": type(e).__name__,
+                                     "entries": di, "components": ri})
     nz_decl = nz
     nz = nz + late
     with C.quiet():
         lst = m.rule_var()
     # the dependencies the code recorded must be exactly the declared ones (padded for late random variables)
-    for x, dsc in zip(order, decs):
+    for k_, (x, dsc) in enumerate(zip(order, decs)):
         got = np.zeros((dsc['size'], nz), int) if x.rand_adapt is None else np.asarray(x.rand_adapt)[:, :nz]
-        want = np.hstack([np.array(dsc['mask']).reshape(dsc['size'], nz_decl), np.zeros((dsc['size'], late), int)])
+        want = np.hstack([np.array(dsc['mask']).reshape(dsc['size'], nz_decl), late_masks[k_]])
         if got.shape != want.shape or np.any(got != want):
             problems.append({"what": "recorded dependencies differ from the declared ones", "declared": want.tolist(), "recorded": got.tolist()})
     vc = m.ro_model.rc_model.vars[1]            # var_const block
@@ -397,7 +432,9 @@ def search_one(ctx, r):
 def replay(rp):
     case = rp['case']
     if 'calls' in case and 'S' in case:
-        labels = ['s%d' % i for i in range(case['S'])] if case.get('labels') else None
-        res = real_evt_seq(case['S'], case['calls'], labels)
+        labels = case.get('labels')
+        if labels is True:
+            labels = ['s%d' % i for i in range(case['S'])]
+        res = real_evt_seq(case['S'], case['calls'], labels or None, case.get('via'))
         return {"code": res, "fails": True, "expected": rp.get('detail')}
     return {"note": "re-run bin/check C13 with the recorded seed", "fails": True}
